@@ -127,7 +127,7 @@ func buildOpts(prog []optSpec, w *world) ([]mod.Opts, error) {
 		case "Annotation":
 			out = append(out, mod.WithAnnotation(o.A, o.V))
 		case "AnnotationBase":
-			r, err := ref.New(w.refOld)
+			r, err := ref.New("registry.example.org/lib/base:old")
 			if err != nil {
 				return nil, err
 			}
